@@ -841,10 +841,42 @@ def sweep(ctx, n):
     return texts, dist, nchecks, by_sig, count_sig, shapes
 
 
+# the words the lexer keeps keywords in front of a parenthesis (rule (CASE|IN|VALUES|USING|FROM|AS)\b): pinned here, the
+# Coq family Inst/C13FnWords.v has the same list
+NEVER_FUNCTION = {'AS', 'CASE', 'FROM', 'IN', 'USING', 'VALUES'}
+
+
+def fnword_failures(ctx):
+    """`a call f(a, b) is a Function whose get_parameters() yields the written arguments` for f ranging over the alphabetic
+    words of the keyword dictionaries (if, left, replace, date, ...), in a random letter case"""
+    from sqlparse.lexer import Lexer
+    words = sorted({w for d in Lexer.get_default_instance()._keywords for w in d if w.isalpha() and w.isascii()})
+    out, n = [], 0
+    for w in words:
+        if w in NEVER_FUNCTION:
+            continue
+        name = ''.join(ch.lower() if ctx.rng.random() < 0.7 else ch for ch in w)
+        text = 'select %s(a, b) from t' % name
+        s0 = 7
+        e0 = s0 + len(name) + 6
+        a0 = s0 + len(name) + 1
+        chk = {'kind': 'function', 'span': [s0, e0], 'args': [[a0, a0 + 1], [a0 + 3, a0 + 4]], 'name': name}
+        n += 1
+        for d in run_checks(text, [chk], ()):
+            out.append({'input': [ord(ch) for ch in text], 'text': text, 'sig': 'fnword:' + d['sig'],
+                        'observed': ('dictionary word as function name: ' + d['sig'] + ' -- ' + d['detail'])[:300],
+                        'check': chk, 'kws': []})
+            break
+    return out, n
+
+
 def run(ctx):
     n = ctx.n(6000, 60000)
     texts, dist, nchecks, by_sig, count_sig, shapes = sweep(ctx, n)
     res = {'disagreements': [], 'failures': []}
+    fw, nfw = fnword_failures(ctx)
+    res['failures'] += fw[:3]
+    nchecks['fnword'] = nfw
     # the model agrees with the implementation on these texts (complete trees after parse)
     sample = texts[:ctx.n(1500, 12000)]
     dis, _ = common.corr_stage('parse', sample, impl.parse_dump, 'parse', extra='all ')
